@@ -16,6 +16,24 @@ theorem expired_iff (e : Entry) (now t : Int) (h : e.exp = some t) : e.expired n
 theorem no_deadline_never_expires (e : Entry) (now : Int) (h : e.exp = none) : e.expired now = false :=
   Entry.not_expired_none e now h
 
+/-- **Expiry is monotone in the clock**: once a stored entry counts as expired it counts as expired at every later
+    clock reading — an untouched key never comes back by the passage of time (all entries, all pairs of readings). -/
+theorem expired_mono (e : Entry) (now now' : Int) (hle : now ≤ now') (h : e.expired now = true) :
+    e.expired now' = true := by
+  unfold Entry.expired at h ⊢
+  split at h
+  · simp at h
+  · rename_i t ht
+    simp only [decide_eq_true_eq] at h ⊢
+    omega
+
+/-- … and, read the other way, an entry still live at a clock reading was live at every earlier one -/
+theorem live_earlier (e : Entry) (now now' : Int) (hle : now ≤ now') (h : e.expired now' = false) :
+    e.expired now = false := by
+  cases h0 : e.expired now with
+  | false => rfl
+  | true => rw [expired_mono e now now' hle h0] at h; exact absurd h (by simp)
+
 /-- **Served unchanged until the deadline.** A value read of a stored key whose deadline has not
     passed returns the stored value and changes nothing. -/
 theorem served_until_deadline (c : Ctx) (s : State) (k : Bytes) (e : Entry)
